@@ -8,7 +8,7 @@ Input lines
   {"explicit": VAL, "prev": VAL|null, "base": path}-> {"ok": VAL} | {"err": kind}    (shortToExplicit)
 ENV   = {"classes":[{"path":s,"name":s,"abstract":b,"params":[PARAM]}], "edges":[[sub,super]],
          "imports":[[path, {"k":"cls","path":s} | {"k":"func","path":s,"ret":s,"params":[PARAM]} | {"k":"other"}]]}
-PARAM = {"name":s, "ty":["scalar"|"cls"|"optCls", s], "dflt": [] | [VAL]}
+PARAM = {"name":s, "ty":["scalar"|"optScalar"|"cls"|"optCls", s], "dflt": [] | [VAL]}
 VAL   = {"lit":[ty,tok]} | {"spec":{"cp":null|s,"ia":[[k,VAL]],"dk":[[k,VAL]]}} | {"bare":[[k,VAL]]} | {"nested":[[k..],VAL]}
 CTOR  = {"target":s,"args":[[k,ARG]],"kwargs":[[k,ARG]]},  ARG = {"lit":[ty,tok]} | {"obj":n} | "raw"
 -/
@@ -69,6 +69,7 @@ def tyOfJson (j : Json) : PTy :=
   match j with
   | .arr #[.str "cls", .str b] => .cls b
   | .arr #[.str "optCls", .str b] => .optCls b
+  | .arr #[.str "optScalar", .str t] => .optScalar t
   | .arr #[.str _, .str t] => .scalar t
   | _ => .scalar "?"
 
